@@ -151,6 +151,16 @@ static void do_run(char **w, int n)
 	if (strcmp(trunc, "-") != 0) { size_t t = (size_t)strtoull(trunc, NULL, 10); if (t < len) len = t; }
 	/* exact-size copy so that any over-read of the archive buffer is an ASan report */
 	unsigned char *buf = malloc(len ? len : 1); memcpy(buf, arc, len);
+	{	/* poke=off:val,off:val — damage single bytes of this run's copy */
+		const char *pk = kv(w, n, "poke");
+		while (pk && *pk && *pk != '-') {
+			char *end; unsigned long off = strtoul(pk, &end, 10);
+			if (*end != ':') break;
+			unsigned long val = strtoul(end + 1, &end, 10);
+			if (off < len) buf[off] = (unsigned char)val;
+			pk = (*end == ',') ? end + 1 : NULL;
+		}
+	}
 
 	struct archive *a = archive_read_new();
 	archive_read_support_filter_all(a);
@@ -301,7 +311,7 @@ static void do_make(char **w, int n)
 	if (strcmp(fmt, "raw") == 0 && strcmp(filt, "bzip2") == 0)
 		archive_write_set_filter_option(a, "bzip2", "compression-level", "1");   /* several 100k blocks */
 	r = archive_write_open(a, &sk, NULL, sink_write, NULL);
-	static const long sizes[] = {0, 1, 10, 511, 512, 513, 1000, 4095, 5000, 10240, 70001};
+	static const long sizes[] = {0, 1, 10, 511, 512, 513, 1000, 4095, 5000, 10240, 70001, 200001};
 	int tarlike = strstr(fmt, "tar") || strstr(fmt, "pax") || strstr(fmt, "ustar") || strstr(fmt, "cpio") || strstr(fmt, "newc") || strstr(fmt, "odc");
 	int longnames = strstr(fmt, "pax") || strstr(fmt, "gnutar") || strstr(fmt, "zip") || strstr(fmt, "7zip") || strstr(fmt, "xar") || strstr(fmt, "newc");
 	int isar = strncmp(fmt, "ar", 2) == 0, israw = strcmp(fmt, "raw") == 0;
